@@ -12,7 +12,25 @@ def run(cmd, cwd=None, timeout=3000):
 
 def main():
     name, wt = sys.argv[1], sys.argv[2]
-    pids = sys.argv[3:]
+    pids = [a for a in sys.argv[3:] if not a.startswith("--")]
+    made_wt = False
+    if wt == "-":
+        # fresh scratch worktree from the saved seed
+        wt = "/tmp/wt/seedtest-" + name
+        run("git -C /repo worktree remove --force %s" % wt)
+        rc, out = run("git -C /repo worktree add -q --detach %s HEAD" % wt)
+        if rc != 0:
+            print(out); sys.exit(2)
+        made_wt = True
+        shutil.copytree(os.path.join(V, "seeded", name), os.path.join(wt, "SEED"))
+    try:
+        body(name, wt, pids)
+    finally:
+        if made_wt:
+            run("git -C /repo worktree remove --force %s" % wt)
+
+
+def body(name, wt, pids):
     seed = os.path.join(wt, "SEED")
     meta = json.load(open(os.path.join(seed, "meta.json")))
     if not pids:
@@ -43,7 +61,8 @@ def main():
     dst = os.path.join(V, "seeded", name)
     os.makedirs(dst, exist_ok=True)
     for f in os.listdir(seed):
-        shutil.copy(os.path.join(seed, f), dst)
+        if os.path.abspath(seed) != os.path.abspath(dst) and os.path.isfile(os.path.join(seed, f)):
+            shutil.copy(os.path.join(seed, f), dst)
     # run our checks against it
     rc, out = run("git -C /repo status --porcelain")
     if out.strip():
